@@ -243,6 +243,11 @@ struct MathExplorer
     void run_fn(const MFun& f);
     template <class T>
     void run_all();
+    template <class T>
+    void run_special();
+    template <class T>
+    void run_placement();
+    bool mode_special = false, mode_placement = false;
 };
 
 template <class T>
@@ -565,6 +570,503 @@ void MathExplorer::run_fn(const MFun& f)
     states += N * norders;
 }
 
+
+// ---------------------------------------------------------------------------------------------
+// C12: special values, domains, exact identities and symmetries
+// ---------------------------------------------------------------------------------------------
+enum SpecClass
+{
+    SC_NAN,
+    SC_PINF,
+    SC_NINF,
+    SC_EXACT, // exact value (sign of zero included when the value is a zero and `signed_zero` is set)
+};
+struct SpecCase
+{
+    const char* fn;
+    double x, y; // y unused for unary functions
+    SpecClass cls;
+    double value;
+};
+static const double QNAN = __builtin_nan("");
+static const double PINF = __builtin_inf();
+static const double HALF_PI = 1.57079632679489661923;
+// transcribed from the statement of C12 (and C11 Annex F for the listed items), not from xsimd
+static const SpecCase SPEC_TABLE[] = {
+    // domain errors -> NaN
+    { "log", -1, 0, SC_NAN, 0 }, { "log", -PINF, 0, SC_NAN, 0 }, { "log", -1e-30, 0, SC_NAN, 0 }, { "log", -3.0e38, 0, SC_NAN, 0 },
+    { "log2", -1, 0, SC_NAN, 0 }, { "log2", -PINF, 0, SC_NAN, 0 }, { "log2", -1e-30, 0, SC_NAN, 0 },
+    { "log10", -1, 0, SC_NAN, 0 }, { "log10", -PINF, 0, SC_NAN, 0 }, { "log10", -1e-30, 0, SC_NAN, 0 },
+    { "log1p", -1.0000001, 0, SC_NAN, 0 }, { "log1p", -2, 0, SC_NAN, 0 }, { "log1p", -PINF, 0, SC_NAN, 0 }, { "log1p", -1e30, 0, SC_NAN, 0 },
+    { "sqrt", -1, 0, SC_NAN, 0 }, { "sqrt", -PINF, 0, SC_NAN, 0 }, { "sqrt", -1e-30, 0, SC_NAN, 0 },
+    { "asin", 1.0000001, 0, SC_NAN, 0 }, { "asin", -1.0000001, 0, SC_NAN, 0 }, { "asin", 2, 0, SC_NAN, 0 }, { "asin", PINF, 0, SC_NAN, 0 }, { "asin", -1e30, 0, SC_NAN, 0 },
+    { "acos", 1.0000001, 0, SC_NAN, 0 }, { "acos", -1.0000001, 0, SC_NAN, 0 }, { "acos", 2, 0, SC_NAN, 0 }, { "acos", -PINF, 0, SC_NAN, 0 }, { "acos", 1e30, 0, SC_NAN, 0 },
+    { "acosh", 0.9999999, 0, SC_NAN, 0 }, { "acosh", 0, 0, SC_NAN, 0 }, { "acosh", -1, 0, SC_NAN, 0 }, { "acosh", -1e10, 0, SC_NAN, 0 }, { "acosh", -PINF, 0, SC_NAN, 0 }, { "acosh", -1e30, 0, SC_NAN, 0 },
+    { "atanh", 1.0000001, 0, SC_NAN, 0 }, { "atanh", -1.0000001, 0, SC_NAN, 0 }, { "atanh", 2, 0, SC_NAN, 0 }, { "atanh", PINF, 0, SC_NAN, 0 }, { "atanh", -1e30, 0, SC_NAN, 0 },
+    { "pow", -1, 0.5, SC_NAN, 0 }, { "pow", -2, 1.5, SC_NAN, 0 }, { "pow", -0.5, -2.25, SC_NAN, 0 }, { "pow", -1e10, 0.1, SC_NAN, 0 }, { "pow", -3, 1e-3, SC_NAN, 0 },
+    // poles and limits
+    { "log", 0, 0, SC_NINF, 0 }, { "log", -0.0, 0, SC_NINF, 0 }, { "log2", 0, 0, SC_NINF, 0 }, { "log10", 0, 0, SC_NINF, 0 },
+    { "exp", -PINF, 0, SC_EXACT, 0 }, { "exp", PINF, 0, SC_PINF, 0 },
+    { "exp2", -PINF, 0, SC_EXACT, 0 }, { "exp2", PINF, 0, SC_PINF, 0 }, { "exp10", -PINF, 0, SC_EXACT, 0 }, { "exp10", PINF, 0, SC_PINF, 0 },
+    { "atan", PINF, 0, SC_EXACT, HALF_PI }, { "atan", -PINF, 0, SC_EXACT, -HALF_PI },
+    { "tanh", PINF, 0, SC_EXACT, 1 }, { "tanh", -PINF, 0, SC_EXACT, -1 },
+    { "erf", PINF, 0, SC_EXACT, 1 }, { "erf", -PINF, 0, SC_EXACT, -1 },
+    { "erfc", PINF, 0, SC_EXACT, 0 },
+    { "tgamma", 0.0, 0, SC_PINF, 0 }, { "tgamma", -0.0, 0, SC_NINF, 0 },
+    { "tgamma", -1, 0, SC_NAN, 0 }, { "tgamma", -2, 0, SC_NAN, 0 }, { "tgamma", -3, 0, SC_NAN, 0 }, { "tgamma", -10, 0, SC_NAN, 0 }, { "tgamma", -33, 0, SC_NAN, 0 }, { "tgamma", -34, 0, SC_NAN, 0 }, { "tgamma", -100, 0, SC_NAN, 0 }, { "tgamma", -1e6, 0, SC_NAN, 0 },
+    { "lgamma", -1, 0, SC_PINF, 0 }, { "lgamma", -2, 0, SC_PINF, 0 }, { "lgamma", -3, 0, SC_PINF, 0 }, { "lgamma", -10, 0, SC_PINF, 0 }, { "lgamma", -34, 0, SC_PINF, 0 }, { "lgamma", -35, 0, SC_PINF, 0 }, { "lgamma", -100, 0, SC_PINF, 0 }, { "lgamma", -1e6, 0, SC_PINF, 0 },
+    { "cbrt", PINF, 0, SC_PINF, 0 }, { "cbrt", -PINF, 0, SC_NINF, 0 },
+    // exact identities
+    { "exp", 0, 0, SC_EXACT, 1 }, { "exp", -0.0, 0, SC_EXACT, 1 }, { "log", 1, 0, SC_EXACT, 0 }, { "cos", 0, 0, SC_EXACT, 1 }, { "cos", -0.0, 0, SC_EXACT, 1 },
+};
+static const char* const NAN_ARG_FUNCS[] = { "sqrt", "exp", "exp2", "exp10", "expm1", "log", "log2", "log10", "log1p", "sin", "cos", "tan", "asin", "acos", "atan",
+                                              "sinh", "cosh", "tanh", "asinh", "acosh", "atanh", "cbrt", "erf", "erfc", "tgamma", "lgamma", "sincos.sin", "sincos.cos" };
+
+template <class T>
+static std::vector<T> companion_values()
+{
+    // values on both sides of every whole-batch threshold of section 2, plus hostile specials
+    std::vector<T> c = { (T)1, (T)0, (T)0.1, (T)0.5, (T)0.6, (T)0.7, (T)2, (T)3, (T)5.5, (T)7, (T)14, (T)30, (T)40, (T)100, (T)250, (T)1e4, (T)1e6, (T)1e10, (T)1e30, (T)1e-30,
+                         (T)-0.3, (T)-1, (T)-2.5, (T)-40, (T)-1e10, std::numeric_limits<T>::denorm_min(), std::numeric_limits<T>::max(), -std::numeric_limits<T>::max(),
+                         std::numeric_limits<T>::quiet_NaN(), std::numeric_limits<T>::infinity(), -std::numeric_limits<T>::infinity() };
+    return c;
+}
+
+template <class T>
+static int value_class(T v)
+{
+    if (v != v)
+        return 0;
+    if (std::isinf(v))
+        return v > 0 ? 1 : 2;
+    return 3;
+}
+
+// Runs one implementation on n elements (n multiple of lanes), with tick cap; returns false if a call was aborted.
+template <class T>
+static bool run_impl(const MImpl& im, const T* a, const T* b, T* o0, T* o1, size_t n)
+{
+    const void* in[2] = { a, b };
+    void* out[2] = { o0, o1 };
+    xv_ctx ctx;
+    memset(&ctx, 0, sizeof ctx);
+    ctx.tick_cap = 1000;
+    ctx.aborted_at = -1;
+    im.op->fn(in, out, n, &ctx);
+    return ctx.aborted_at < 0;
+}
+
+template <class T>
+void MathExplorer::run_special()
+{
+    constexpr int elem = std::is_same<T, float>::value ? XV_F32 : XV_F64;
+    const auto comp = companion_values<T>();
+    const std::string tname = xv_type_name[elem];
+    auto fail = [&](const std::string& fn, const std::string& arch, size_t L, int lane, const std::vector<T>& xa, const std::vector<T>& xb, int arity, T obs, const std::string& note, T expected)
+    {
+        Violation v;
+        v.prop = prop;
+        v.op = fn;
+        v.arch = arch;
+        v.elem = elem;
+        v.lanes = (int)L;
+        v.lane = lane;
+        v.nin = arity;
+        v.out_type = elem;
+        for (int k = 0; k < arity; ++k)
+        {
+            v.in_t[k] = elem;
+            for (size_t l = 0; l < L; ++l)
+                v.in[k].push_back(to_bits<T>((k == 0 ? xa : xb)[l]));
+        }
+        v.expected = to_bits<T>(expected);
+        v.observed = to_bits<T>(obs);
+        v.note = note;
+        v.oracle = "special value / identity / symmetry (C12)";
+        int fi = classify_special(v, fn, (long double)xa[(size_t)lane], (long double)obs);
+        std::string fid = (fi >= 0 && known_open.count(math_findings()[(size_t)fi].id)) ? math_findings()[(size_t)fi].id : "";
+        record(std::move(v), fid);
+    };
+    uint64_t cases = 0, judged = 0;
+    // ---- (a) the table, every lane position, every companion class ----
+    std::vector<SpecCase> table(std::begin(SPEC_TABLE), std::end(SPEC_TABLE));
+    for (const char* fn : NAN_ARG_FUNCS)
+    {
+        table.push_back({ fn, QNAN, 0, SC_NAN, 0 });
+        table.push_back({ fn, -QNAN, 0, SC_NAN, 0 });
+    }
+    for (const char* fn : { "atan2", "hypot", "pow" })
+    {
+        table.push_back({ fn, QNAN, 2.5, SC_NAN, 0 });
+        table.push_back({ fn, 2.5, QNAN, SC_NAN, 0 });
+    }
+    for (auto& sc : table)
+    {
+        const MFun* f = find_mfun(sc.fn);
+        if (!f)
+            continue;
+        if (!only.empty() && !only.count(f->name))
+            continue;
+        auto impls = impls_of(f->impl, elem, "M");
+        T sx = (T)sc.x, sy = (T)sc.y;
+        if (std::is_same<T, float>::value && sc.x == 1.0000001)
+            sx = std::nextafter((T)1, (T)2);
+        if (std::is_same<T, float>::value && sc.x == -1.0000001)
+            sx = std::nextafter((T)-1, (T)-2);
+        if (std::is_same<T, float>::value && sc.x == 0.9999999)
+            sx = std::nextafter((T)1, (T)0);
+        if (std::is_same<T, double>::value && (sc.x == 1.0000001 || sc.x == -1.0000001 || sc.x == 0.9999999))
+            sx = sc.x > 0 ? (sc.x > 1 ? std::nextafter((T)1, (T)2) : std::nextafter((T)1, (T)0)) : std::nextafter((T)-1, (T)-2);
+        // signalling NaN payload variant for NaN arguments is covered by the lattice relations below
+        for (auto& im : impls)
+        {
+            const size_t L = (size_t)im.op->lanes;
+            const std::string& arch = mods[(size_t)im.module].arch;
+            std::vector<T> xa(L), xb(L), o0(L), o1(L);
+            for (size_t cc = 0; cc <= comp.size(); ++cc)
+                for (size_t k = 0; k < L; ++k)
+                {
+                    for (size_t l = 0; l < L; ++l)
+                    {
+                        T cv = cc < comp.size() ? comp[cc] : comp[(l + k) % comp.size()]; // last class: rotation of everything
+                        xa[l] = l == k ? sx : cv;
+                        xb[l] = l == k ? sy : (f->arity == 2 ? cv : (T)0);
+                    }
+                    ++cases;
+                    if (!run_impl<T>(im, xa.data(), xb.data(), o0.data(), o1.data(), L))
+                        continue; // C14's business
+                    ++judged;
+                    T y = (f->out_slot ? o1 : o0)[k];
+                    bool ok = true;
+                    T want = (T)sc.value;
+                    switch (sc.cls)
+                    {
+                    case SC_NAN:
+                        ok = y != y;
+                        want = std::numeric_limits<T>::quiet_NaN();
+                        break;
+                    case SC_PINF:
+                        ok = std::isinf(y) && y > 0;
+                        want = std::numeric_limits<T>::infinity();
+                        break;
+                    case SC_NINF:
+                        ok = std::isinf(y) && y < 0;
+                        want = -std::numeric_limits<T>::infinity();
+                        break;
+                    case SC_EXACT:
+                        ok = y == want; // numerically (a zero of either sign for a zero limit)
+                        break;
+                    }
+                    if (!ok)
+                    {
+                        char buf[200];
+                        snprintf(buf, sizeof buf, "%s(%.9g%s) in lane %zu (companions class %zu) = %.9g, expected %s%.9g", sc.fn, (double)sx, f->arity == 2 ? (", " + std::to_string((double)sy)).c_str() : "", k, cc, (double)y,
+                                 sc.cls == SC_NAN ? "NaN " : "", (double)want);
+                        fail(f->name, arch, L, (int)k, xa, xb, f->arity, y, buf, want);
+                    }
+                }
+            std::lock_guard<std::mutex> g(mu);
+            per_arch[arch] += (comp.size() + 1) * L;
+        }
+    }
+    states += cases;
+    // ---- (b) relations over the unary argument space ----
+    Space<T> S = unary_space<T>(thorough, seed);
+    const uint64_t N = S.size();
+    const size_t BLK = 1u << 14;
+    const uint64_t nblocks = (N + BLK - 1) / BLK;
+    struct Rel
+    {
+        std::string name; // reported operation name
+        const char* opA;
+        int slotA;
+        const char* opB;
+        int slotB;
+        int kind; // 0: B(x) == A(x) bitwise; 1: odd A(-x) == -A(x); 2: even A(-x) == A(x); 3: pow(x, +-0) == 1
+    };
+    std::vector<Rel> rels = {
+        { "sincos.sin==sin", "sincos", 0, "sin", 0, 0 }, { "sincos.cos==cos", "sincos", 1, "cos", 0, 0 }, { "fabs==abs", "fabs", 0, "abs", 0, 0 }, { "rint==nearbyint", "rint", 0, "nearbyint", 0, 0 },
+        { "pow(x,0)==1", "pow", 0, "pow", 0, 3 },
+    };
+    for (auto& f : mfuns())
+        if (f.arity == 1 && (f.odd || f.even))
+            rels.push_back({ std::string(f.name) + (f.odd ? ":odd" : ":even"), f.impl, 0, f.impl, 0, f.odd ? 1 : 2 });
+    notes.push_back(std::string("relations<") + tname + ">: " + S.label + " (" + std::to_string(N) + " points)");
+    std::atomic<uint64_t> rjudged { 0 };
+    for (auto& R : rels)
+    {
+        if (!only.empty() && !only.count(R.name) && !only.count(R.opA))
+            continue;
+        auto IA = impls_of(R.opA, elem, "M");
+        auto IB = impls_of(R.opB, elem, "M");
+        if (IA.empty() || IA.size() != IB.size())
+            continue;
+        std::vector<std::atomic<uint64_t>> unk(IA.size());
+        for (auto& u : unk)
+            u = 0;
+        parallel_for(nblocks, nthreads, [&](int, uint64_t blk)
+                     {
+            if (expired)
+                return;
+            if (deadline != 0 && now_s() > deadline)
+            {
+                expired = true;
+                return;
+            }
+            const size_t n = (size_t)std::min<uint64_t>(BLK, N - blk * BLK);
+            std::vector<T> a(BLK), b(BLK), oa0(BLK), oa1(BLK), ob0(BLK), ob1(BLK);
+            for (size_t e = 0; e < BLK; ++e)
+            {
+                a[e] = e < n ? tval<T>(S.at(blk * BLK + e)) : (T)1;
+                b[e] = (R.kind == 1 || R.kind == 2) ? -a[e] : (R.kind == 3 ? ((e & 1) ? (T)-0.0 : (T)0.0) : a[e]);
+            }
+            for (size_t ii = 0; ii < IA.size(); ++ii)
+            {
+                if (unk[ii] > 2000)
+                    continue;
+                const size_t L = (size_t)IA[ii].op->lanes;
+                const std::string& arch = mods[(size_t)IA[ii].module].arch;
+                bool okrun;
+                if (R.kind == 3)
+                    okrun = run_impl<T>(IA[ii], a.data(), b.data(), oa0.data(), oa1.data(), BLK);
+                else if (R.kind == 0)
+                    okrun = run_impl<T>(IA[ii], a.data(), a.data(), oa0.data(), oa1.data(), BLK) && run_impl<T>(IB[ii], a.data(), a.data(), ob0.data(), ob1.data(), BLK);
+                else
+                    okrun = run_impl<T>(IA[ii], a.data(), a.data(), oa0.data(), oa1.data(), BLK) && run_impl<T>(IB[ii], b.data(), b.data(), ob0.data(), ob1.data(), BLK);
+                if (!okrun)
+                    continue;
+                const T* ya = R.slotA ? oa1.data() : oa0.data();
+                const T* yb = R.slotB ? ob1.data() : ob0.data();
+                uint64_t jd = 0;
+                for (size_t e = 0; e < n; ++e)
+                {
+                    T x = a[e];
+                    T got, want;
+                    bool ok;
+                    if (R.kind == 3)
+                    {
+                        if (!(std::isfinite(x) && x != 0))
+                            continue;
+                        got = ya[e];
+                        want = (T)1;
+                        ok = to_bits<T>(got) == to_bits<T>(want);
+                    }
+                    else
+                    {
+                        got = yb[e];
+                        want = R.kind == 1 ? -ya[e] : ya[e];
+                        ok = to_bits<T>(got) == to_bits<T>(want) || (got != got && want != want);
+                    }
+                    ++jd;
+                    if (ok)
+                        continue;
+                    size_t b0 = e - e % L;
+                    std::vector<T> xa(a.begin() + (long)b0, a.begin() + (long)(b0 + L)), xb(b.begin() + (long)b0, b.begin() + (long)(b0 + L));
+                    char buf[220];
+                    if (R.kind == 0)
+                        snprintf(buf, sizeof buf, "%s: x=%.9g: %.17g vs %.17g (must be bit-identical)", R.name.c_str(), (double)x, (double)ya[e], (double)yb[e]);
+                    else if (R.kind == 3)
+                        snprintf(buf, sizeof buf, "pow(%.9g, %s0) = %.17g, must be exactly 1", (double)x, (e & 1) ? "-" : "+", (double)got);
+                    else
+                        snprintf(buf, sizeof buf, "%s: f(%.9g)=%.17g but f(%.9g)=%.17g", R.name.c_str(), (double)x, (double)ya[e], (double)-x, (double)yb[e]);
+                    ++unk[ii];
+                    fail(R.name, arch, L, (int)(e % L), xa, xb, R.kind == 3 ? 2 : 1, got, buf, want);
+                }
+                rjudged += jd;
+            } });
+        states += N;
+    }
+    if (!stats.count("special<" + tname + ">"))
+        stats["special<" + tname + ">"].reset(new FnStats);
+    stats["special<" + tname + ">"]->points += cases;
+    stats["special<" + tname + ">"]->judged += judged + rjudged;
+}
+
+// ---------------------------------------------------------------------------------------------
+// C13 (elementary functions): a subject value in every lane among every companion class
+// ---------------------------------------------------------------------------------------------
+template <class T>
+void MathExplorer::run_placement()
+{
+    constexpr int elem = std::is_same<T, float>::value ? XV_F32 : XV_F64;
+    const auto comp = companion_values<T>();
+    // subjects: windows (+-2 ulp) at every switch point, both signs, specials, a few values per binade
+    std::vector<uint64_t> subj;
+    for (double c : SWITCH_POINTS)
+        window<T>(subj, (T)c, 2);
+    {
+        auto L0 = fp_lattice<T>(seed, 8, 0);
+        subj.insert(subj.end(), L0.v.begin(), L0.v.end());
+        auto Bn = binades<T>(2, seed, true, std::is_same<T, float>::value ? 8 : 64);
+        subj.insert(subj.end(), Bn.v.begin(), Bn.v.end());
+        for (int k = 1; k <= 80; ++k)
+            window<T>(subj, (T)(k * 0.5), 1);
+    }
+    dedup_keep_order(subj);
+    const size_t NS = subj.size();
+    const size_t NC = comp.size() + 1;
+    for (auto& f : mfuns())
+    {
+        if (f.arity != 1)
+            continue;
+        if (!only.empty() && !only.count(f.name))
+            continue;
+        auto impls = impls_of(f.impl, elem, "M");
+        if (impls.empty())
+            continue;
+        const std::string fkey = std::string(f.name) + "<" + xv_type_name[elem] + ">";
+        if (!stats.count(fkey))
+            stats[fkey].reset(new FnStats);
+        FnStats& ST = *stats[fkey];
+        notes.push_back(fkey + ": " + std::to_string(NS) + " subject values x every lane x " + std::to_string(NC) + " companion classes, each next to the broadcast batch");
+        std::vector<std::atomic<uint64_t>> unk(impls.size());
+        for (auto& u : unk)
+            u = 0;
+        parallel_for(NS, nthreads, [&](int, uint64_t si)
+                     {
+            if (expired)
+                return;
+            if (deadline != 0 && now_s() > deadline)
+            {
+                expired = true;
+                return;
+            }
+            const T sx = tval<T>(subj[si]);
+            long double exact = std::is_same<T, float>::value ? (long double)f.r1((double)sx) : f.q1((long double)sx);
+            for (size_t ii = 0; ii < impls.size(); ++ii)
+            {
+                if (unk[ii] > 500)
+                    continue;
+                const MImpl& im = impls[ii];
+                const size_t L = (size_t)im.op->lanes;
+                const std::string& arch = mods[(size_t)im.module].arch;
+                // one call: [broadcast batch][placed batches for every lane and class]
+                const size_t nb = 1 + L * NC;
+                std::vector<T> a(nb * L), z(nb * L, (T)0), o0(nb * L), o1(nb * L);
+                for (size_t l = 0; l < L; ++l)
+                    a[l] = sx;
+                for (size_t cc = 0; cc < NC; ++cc)
+                    for (size_t k = 0; k < L; ++k)
+                    {
+                        size_t bi = 1 + cc * L + k;
+                        for (size_t l = 0; l < L; ++l)
+                            a[bi * L + l] = l == k ? sx : (cc < comp.size() ? comp[cc] : comp[(l + k) % comp.size()]);
+                    }
+                if (!run_impl<T>(im, a.data(), z.data(), o0.data(), o1.data(), nb * L))
+                {
+                    ++ST.aborted_calls;
+                    continue;
+                }
+                const T* y = f.out_slot ? o1.data() : o0.data();
+                const T yb = y[0];
+                ST.points += nb;
+                // all lanes of the broadcast batch must be identical
+                for (size_t l = 1; l < L; ++l)
+                    if (to_bits<T>(y[l]) != to_bits<T>(yb) && !(y[l] != y[l] && yb != yb))
+                    {
+                        Violation v;
+                        v.prop = prop;
+                        v.op = f.name;
+                        v.arch = arch;
+                        v.elem = elem;
+                        v.lanes = (int)L;
+                        v.lane = (int)l;
+                        v.nin = 1;
+                        v.in_t[0] = elem;
+                        v.out_type = elem;
+                        for (size_t q = 0; q < L; ++q)
+                            v.in[0].push_back(to_bits<T>(sx));
+                        v.expected = to_bits<T>(yb);
+                        v.observed = to_bits<T>(y[l]);
+                        v.oracle = "broadcast batch: identical results in all lanes";
+                        v.note = "broadcast(" + std::to_string((double)sx) + "): lane " + std::to_string(l) + " differs from lane 0";
+                        ++unk[ii];
+                        record(std::move(v), "");
+                        break;
+                    }
+                const int cb = value_class<T>(yb);
+                const bool in_domain = std::isfinite((double)sx) && std::fpclassify(sx) != FP_SUBNORMAL && sx != 0 && exact == exact;
+                for (size_t cc = 0; cc < NC; ++cc)
+                    for (size_t k = 0; k < L; ++k)
+                    {
+                        const size_t bi = 1 + cc * L + k;
+                        const T yk = y[bi * L + k];
+                        ++ST.judged;
+                        std::string why;
+                        Judge J { V_PASS, 0, 0 };
+                        if (value_class<T>(yk) != cb)
+                            why = "special-value class differs from the broadcast result";
+                        else if (in_domain && cb == 3)
+                        {
+                            J = judge<T>(f, (long double)sx, 0, exact, yk);
+                            if ((J.v == V_FAIL_ACC || J.v == V_FAIL_GRACE) && !known_open.empty())
+                            {
+                                // already inside an open known-finding class (first reference): counted there without MPFR
+                                Violation pv;
+                                pv.elem = elem;
+                                int pfi = classify_math(pv, f, (long double)sx, 0, exact, (long double)yk, J);
+                                if (pfi >= 0 && known_open.count(math_findings()[(size_t)pfi].id))
+                                {
+                                    const std::string fidp = math_findings()[(size_t)pfi].id;
+                                    std::lock_guard<std::mutex> g(mu);
+                                    uint64_t& c = by_key[std::string(f.name) + "|" + xv_type_name[elem] + "|" + arch + "|" + fidp];
+                                    if (c >= 1)
+                                    {
+                                        ++c;
+                                        ++total;
+                                        ++by_finding[fidp];
+                                        continue;
+                                    }
+                                }
+                            }
+                            if (J.v == V_FAIL_ACC || J.v == V_FAIL_GRACE)
+                            {
+                                long double r2 = mpfr_ref(f, (long double)sx, 0);
+                                J = judge<T>(f, (long double)sx, 0, r2, yk);
+                                if (J.v == V_FAIL_ACC && std::isfinite(J.err))
+                                {
+                                    J.err = mpfr_err_ulp<T>(f, (long double)sx, 0, yk, f.rule == R_LGAMMA);
+                                    if (J.err <= J.bound)
+                                        J.v = V_PASS;
+                                }
+                                if (J.v == V_FAIL_ACC || J.v == V_FAIL_GRACE)
+                                    why = "outside the function's accuracy bound among these companions";
+                            }
+                        }
+                        if (why.empty())
+                            continue;
+                        Violation v;
+                        v.prop = prop;
+                        v.op = f.name;
+                        v.arch = arch;
+                        v.elem = elem;
+                        v.lanes = (int)L;
+                        v.lane = (int)k;
+                        v.nin = 1;
+                        v.in_t[0] = elem;
+                        v.out_type = elem;
+                        v.out_slot = f.out_slot;
+                        for (size_t q = 0; q < L; ++q)
+                            v.in[0].push_back(to_bits<T>(a[bi * L + q]));
+                        v.expected = to_bits<T>(yb);
+                        v.observed = to_bits<T>(yk);
+                        v.oracle = "lane k of f(X) versus f(broadcast(X[k])) (C13)";
+                        char buf[260];
+                        snprintf(buf, sizeof buf, "x=%.17Lg in lane %zu, companions class %zu: result=%.17Lg, broadcast result=%.17Lg, exact=%.21Lg: %s (error %.3f ulp, bound %.3f)", (long double)sx, k, cc, (long double)yk, (long double)yb, exact, why.c_str(), J.err, J.bound);
+                        v.note = buf;
+                        int fi = classify_math(v, f, (long double)sx, 0, exact, (long double)yk, J);
+                        std::string fid = (fi >= 0 && known_open.count(math_findings()[(size_t)fi].id)) ? math_findings()[(size_t)fi].id : "";
+                        if (fid.empty())
+                            ++unk[ii];
+                        record(std::move(v), fid);
+                    }
+                std::lock_guard<std::mutex> g(mu);
+                per_arch[arch] += nb * L;
+            } });
+        states += NS * NC;
+    }
+}
+
 template <class T>
 void MathExplorer::run_all()
 {
@@ -617,6 +1119,10 @@ int main(int argc, char** argv)
             E.mode_ticks = true;
         else if (a == "--scalar")
             E.mode_scalar = true;
+        else if (a == "--special")
+            E.mode_special = true;
+        else if (a == "--placement")
+            E.mode_placement = true;
         else if (a == "--only")
             for (auto& s : split(next(), ','))
                 E.only.insert(s);
@@ -793,7 +1299,21 @@ int main(int argc, char** argv)
 
     for (auto& ty : split(types, ','))
     {
-        if (ty == "float")
+        if (E.mode_special)
+        {
+            if (ty == "float")
+                E.run_special<float>();
+            else if (ty == "double")
+                E.run_special<double>();
+        }
+        else if (E.mode_placement)
+        {
+            if (ty == "float")
+                E.run_placement<float>();
+            else if (ty == "double")
+                E.run_placement<double>();
+        }
+        else if (ty == "float")
             E.run_all<float>();
         else if (ty == "double")
             E.run_all<double>();
